@@ -20,7 +20,9 @@ import (
 
 // C15: caller and stack annotations.
 //
-// Every case runs one REAL log call from a known call site and ships
+// Every case runs one REAL log call from a known call site (sections 1-7: on values built for
+// that case; section 8, c15_session.go: a whole sequence of calls on values shared by the
+// sequence) and ships
 //   - the user's stack at that call site (runtime.Callers taken on the same source line,
 //     by c15here(), which is evaluated as the message argument of the call), as frame ids,
 //   - the front end, the chain of conversions that produced the logger, the levels,
@@ -325,7 +327,11 @@ func (c c15conv) sx() SX {
 
 // apply the chain to a real logger; returns nil when the chain is ill-kinded (never generated)
 func c15apply(base *zap.Logger, chain []c15conv) (l *zap.Logger, s *zap.SugaredLogger) {
-	l = base
+	return c15applyFrom(base, nil, chain)
+}
+
+// the same from either kind of value (exactly one of l, s is non-nil)
+func c15applyFrom(l *zap.Logger, s *zap.SugaredLogger, chain []c15conv) (*zap.Logger, *zap.SugaredLogger) {
 	for _, c := range chain {
 		switch c.k {
 		case 0:
@@ -402,7 +408,7 @@ func c15apply(base *zap.Logger, chain []c15conv) (l *zap.Logger, s *zap.SugaredL
 			undo()
 		}
 	}
-	return
+	return l, s
 }
 
 func c15chainSugared(chain []c15conv) bool {
@@ -1171,6 +1177,8 @@ func c15(c *Ctx) {
 		}
 		c15emit(c, cs)
 	}
+	// 8. sessions: sequences of calls on the SAME values (harness/c15_session.go)
+	c15sessions(c, r.Fork())
 	c.Info("distinct_frames", strconv.Itoa(len(c15ids)))
 	// report which methods the table covers, for the evidence
 	var names []string
